@@ -159,6 +159,7 @@ class PipeWorld:
         self.next_calls = 0
         self.next_total = 0
         self.monotone_next = False
+        self.next_fault = False
         self._patch()
         self.boot()
 
@@ -176,6 +177,10 @@ class PipeWorld:
             def nxt():
                 # max(stored run ids) + 1: grows with every run that was started
                 w.next_calls += 1
+                if w.next_fault:
+                    # environment deviation: one transient data-base outage
+                    w.next_fault = False
+                    raise IOError('verif: injected db.next() outage')
                 if not w.monotone_next:
                     return w.store_next     # nothing is stored in this tier
                 w.next_total += 1
@@ -427,7 +432,14 @@ class PipeWorld:
         self.collect()
         return self.obs[-2:] if self.obs else []
 
-    def ev_tick(self):
+    def ev_tick(self, fault=False):
+        self.next_fault = bool(fault)
+        try:
+            return self._ev_tick()
+        finally:
+            self.next_fault = False
+
+    def _ev_tick(self):
         if self.mode == 'ample' and self.fsm.active:
             need = len(farm._cluster) + sum(
                 max(1, len(n.get('todo'))) for n in schedule.que)
